@@ -518,8 +518,9 @@ def field_spec(rng):
         mk("aux", "aux2", rng.sample(all_ax, 2), {"standard_name": "latitude", "units": "degrees_north"}, bounds=True)
     if rng.random() < 0.5:
         # a scalar coordinate: spans its own size-1 axis, which the data do not span
-        axes.append({"size": 1, "ncdim": None, "dimgroups": None, "dc": False})
-        mk("aux", "auxs", [len(axes) - 1], {"long_name": "scalar aux"})
+        # (a numeric scalar coordinate variable is read as a dimension coordinate)
+        axes.append({"size": 1, "ncdim": None, "dimgroups": None, "dc": False, "scalar": True})
+        mk("dim", "scal", [len(axes) - 1], {"standard_name": "time", "units": "days since 2000-01-01"})
     if rng.random() < 0.6:
         mk("measure", "areacell", all_ax[:2], {"units": "m2"})
     if rng.random() < 0.6:
@@ -552,7 +553,9 @@ def spec_variables(spec):
     dimname = {}
     for i, a in enumerate(axes):
         dc = [c for c in spec["constructs"] if c["type"] == "dim" and c["axes"] == [i]]
-        if dc:
+        if a.get("scalar"):
+            dimname[i] = None                      # written as a scalar coordinate variable
+        elif dc:
             dimname[i] = full_name(dc[0]["groups"], dc[0]["ncvar"])
         elif a["ncdim"] is None:
             dimname[i] = None                      # size-1 axis of a scalar coordinate: no dimension
@@ -654,7 +657,7 @@ def run(chk, model_ok):
     for c in ref_cases:
         for pr in c["probes"]:
             pr.setdefault("coords", None)
-    for _ in range(0 if only not in ('', 'refs') else 140 if quick else 1200):
+    for _ in range(0 if only not in ('', 'refs') else 110 if quick else 1200):
         t = rand_tree(rng)
         probes = [rand_probe(rng, t, k) for k in range(rng.choice([6, 8, 10]))]
         ref_cases.append({"tree": t, "probes": probes})
@@ -747,7 +750,7 @@ def run(chk, model_ok):
     lap("refs-check")
     # ======================================================= 2. the reader's coordinate-variable search
     coord_cases = [dict(c) for c in CORPUS_COORD]
-    for _ in range(0 if only not in ('', 'coord') else 110 if quick else 900):
+    for _ in range(0 if only not in ('', 'coord') else 90 if quick else 900):
         coord_cases.append(coord_case(rng))
     payload = [{"tree": coord_tree(c), "field": [c["F"], "ta"]} for c in coord_cases]
     rows, crashed = run_family("coord", payload, scratch)
@@ -875,11 +878,11 @@ def run(chk, model_ok):
 
 def run_fields(chk, model_ok, rng, quick, scratch, bump, distinct, stats):
     cases = []
-    for _ in range(0 if os.environ.get('C11_ONLY', '') not in ('', 'fields') else 150 if quick else 1300):
+    for _ in range(0 if os.environ.get('C11_ONLY', '') not in ('', 'fields') else 110 if quick else 1300):
         spec = field_spec(rng)
         cases.append({"spec": spec})
     ex_cases = []
-    for _ in range(0 if os.environ.get('C11_ONLY', '') not in ('', 'fields', 'examples') else 28 if quick else 240):
+    for _ in range(0 if os.environ.get('C11_ONLY', '') not in ('', 'fields', 'examples') else 21 if quick else 240):
         ex_cases.append(example_case(rng))
     rows, crashed = run_family("fields", cases, scratch, nworkers=14)
     for rc, err in crashed:
